@@ -759,13 +759,19 @@ func sblockEqual(a, b SBlock) bool { return blockString(a) == blockString(b) }
 // ---------- the two runners ----------
 
 func runHistories(res *Result, rng *RNG, tier string, outDir string, prop string) {
-	n, nOps := 20, 35
+	n, nOps := 24, 35
 	if tier == "thorough" {
-		n, nOps = 500, 70
+		n, nOps = 200, 60
 	}
+	const shard = 8
 	orc := newOracle()
+	var orcs []*oracle
 	var lines, descs []string
 	for h := 0; h < n; h++ {
+		if h%shard == 0 {
+			orc = newOracle()
+			orcs = append(orcs, orc)
+		}
 		r := rng.Fork()
 		w := newHWorld(r, orc)
 		// install the per-build random source
@@ -800,11 +806,9 @@ func runHistories(res *Result, rng *RNG, tier string, outDir string, prop string
 			coqBytes(w.seed), coqList(opl), coqList(outs), coqList(toks), coqList(blks), coqList(bytesL)))
 		descs = append(descs, histString(ops))
 	}
-	cf := NewCasesFile("Base Term DTerm Symbols Chain Wire Token History Corr")
-	cf.Raw(orc.coq(""))
-	cf.Raw("Definition cases : list hist_case := [\n  " + joinLines(lines) + "].\n")
-	cf.Raw("Definition M := Eval vm_compute in mismatches (hist_ok pub_tbl sign_tbl) cases.\nPrint M.\n")
-	cf.WriteTo(outDir, "Cases_"+prop+".v")
+	WriteShardsFn(res, outDir, prop, "Base Term DTerm Symbols Chain Wire Token History Corr",
+		func(start, end int) string { return orcs[start/shard].coq("") },
+		"hist_case", "hist_ok pub_tbl sign_tbl", lines, shard)
 	res.ModelCases = len(lines)
 	res.CaseDescs = descs
 }
